@@ -99,6 +99,16 @@ fn from_abbr(rep: &mut Report) {
         }
     }
     chars.extend([' ', 'u', '\u{03bc}', '\u{00b5}', 'x', '0']);
+    // look-alikes by truncation: code points that agree with an abbreviation character in their low byte
+    // (a lookup table indexed by `c as u8`) or low 7 bits
+    let base: Vec<char> = model.iter().flat_map(|m| m.abbr.chars()).collect();
+    for c in base {
+        for off in [0x80u32, 0x100, 0x300, 0x2000, 0x10000] {
+            if let Some(x) = char::from_u32(c as u32 + off) {
+                chars.insert(x);
+            }
+        }
+    }
     let chars: Vec<char> = chars.into_iter().collect();
     let mut inputs: Vec<String> = vec![String::new()];
     for &a in &chars {
